@@ -2,7 +2,7 @@ SPECIFICATION Spec
 CONSTANTS
   Steps = {64, 256, 512, 1024}
   MaxSubs = {2, 3}
-  MinSub = 128
+  MinSub = 32
   Delta = 640
   Unit = 64
   X0 = 4096
@@ -17,6 +17,5 @@ INVARIANT FlagMatchesGeometry
 INVARIANT DistanceOK
 INVARIANT RoundingBounded
 INVARIANT DirFromMomentum
-INVARIANT Emit
 PROPERTY ProgressOK
 CHECK_DEADLOCK TRUE
